@@ -18,12 +18,16 @@ class Objects:
         self.ctx = ctx
 
     def library_function(self, full):
+        if full in LIBFUNCS:
+            return Builtin(LIBFUNCS[full])
         return None
 
     def havoc_db(self, ex, st, db):
         return db
 
     def call_opaque(self, ex, st, fv, args, kwargs, node):
+        if fv.kind == "interp1d":
+            return self.interp1d_call(ex, st, fv, args[0], node)
         raise EngineError("%s:L%d: call of %r outside the subset" % (ex.fnname, node.lineno, fv))
 
     def call_method(self, ex, st, obj, bm, args, kwargs, node):
@@ -46,3 +50,71 @@ class Objects:
 
     def next_of(self, ex, st, v, node):
         raise EngineError("next() outside the subset")
+
+
+LIBFUNCS = {
+    "scipy.interpolate.interp1d": "sp_interp1d",
+    "scipy.optimize.brentq": "sp_brentq",
+}
+
+
+def _install():
+    from . import libspec
+    L = libspec.Lib
+
+    def b_sp_interp1d(self, ex, st, args, kwargs, node):
+        libspec.trusted("scipy.interpolate.interp1d(kind='linear'): the piecewise-linear interpolant of the points; "
+                        "ValueError outside [x[0], x[-1]]")
+        x = ex.as_seq(args[0], st)
+        y = ex.as_seq(args[1], st)
+        kind = kwargs.get("kind", "linear")
+        ex.oblige(st, kind == "linear", "interp1d-kind-linear", node, "only the linear interpolant is under contract")
+        ex.oblige(st, ex.cmp_eq(x.n, y.n), "interp1d-shapes", node)
+        ex.oblige(st, ex.cmp_ge(x.n, 2), "interp1d-needs-two-points", node,
+                  "scipy >= 1.10: interp1d raises ValueError for fewer than 2 points? (x and y arrays must have at least 2 entries for kind='linear')")
+        return Opaque("interp1d", x=x, y=y)
+
+    def b_sp_brentq(self, ex, st, args, kwargs, node):
+        libspec.trusted("scipy.optimize.brentq(f, a, b): requires f(a) f(b) <= 0 (else ValueError); returns r between a "
+                        "and b with f(r) = 0 (exact root: floats as reals)")
+        f, a, b = args[0], as_real(args[1]), as_real(args[2])
+        fa = as_real(self.apply(ex, st, f, [a], {}, node))
+        fb = as_real(self.apply(ex, st, f, [b], {}, node))
+        ex.oblige(st, zor(zand(ex.cmp_le(fa, 0), ex.cmp_ge(fb, 0)), zand(ex.cmp_ge(fa, 0), ex.cmp_le(fb, 0))),
+                  "brentq-sign-change", node, "f(a) and f(b) must have different signs")
+        r = z3.Real(uid("root"))
+        st.assume(zor(zand(ex.cmp_le(a, r), ex.cmp_le(r, b)), zand(ex.cmp_le(b, r), ex.cmp_le(r, a))))
+        saved = ex.checking
+        ex.checking = False
+        try:
+            fr = as_real(self.apply(ex, st, f, [r], {}, node))
+        finally:
+            ex.checking = saved
+        st.assume(values_equal(fr, 0))
+        return r
+
+    L.b_sp_interp1d = b_sp_interp1d
+    L.b_sp_brentq = b_sp_brentq
+
+
+def _interp1d_call(self, ex, st, fv, xq, node):
+    x, y = fv.get("x"), fv.get("y")
+    xq = as_real(xq)
+    n = to_z3(x.n)
+    ex.oblige(st, zand(ex.cmp_le(x.at(0), xq), ex.cmp_le(xq, x.at(x.n - 1))), "interp1d-in-bounds", node)
+    if is_z3(xq) and mentions_bound(xq):
+        raise EngineError("interp1d evaluated under a bound variable")
+    r = z3.Real(uid("interp"))
+    i = bvar("i")
+    xi, xi1 = to_z3(as_real(x.at(i))), to_z3(as_real(x.at(i + 1)))
+    yi, yi1 = to_z3(as_real(y.at(i))), to_z3(as_real(y.at(i + 1)))
+    st.assume(z3.ForAll([i], z3.Implies(z3.And(i >= 0, i < n - 1, xi <= to_z3(xq), to_z3(xq) <= xi1),
+                                        z3.And(r == yi + (to_z3(xq) - xi) * (yi1 - yi) / (xi1 - xi),
+                                               z3.Implies(to_z3(xq) == xi, r == yi),
+                                               z3.Implies(to_z3(xq) == xi1, r == yi1)))))
+    return r
+
+
+Objects.interp1d_call = _interp1d_call
+from .values import bvar, mentions_bound  # noqa
+_install()
